@@ -1,6 +1,7 @@
 package props
 
 import (
+	"strings"
 	"encoding/binary"
 	"encoding/json"
 	"fmt"
@@ -24,6 +25,9 @@ func c16Spec(rng *rand.Rand, i int) (*SessSpec, string) {
 	}
 	if i%12 == 7 {
 		kind = "notified"
+	}
+	if i%24 == 5 {
+		kind = "notified-during-open"
 	}
 	if kind == "scrape" && i%3 == 0 {
 		// a skip window: dropped events are not counted
@@ -78,6 +82,21 @@ func c16Spec(rng *rand.Rand, i int) (*SessSpec, string) {
 		}
 		sp.Steps = append(sp.Steps, Step{Op: "holdeh", Sel: "BRS"}, Step{Op: "membership", N: 1 + rng.Intn(total), VB: total}, Step{Op: "waitheld", Sel: "BRS"}, Step{Op: "metrics"},
 			Step{Op: "releaseeh"}, Step{Op: "waitrebalance", N: 1}, Step{Op: "barrier"}, Step{Op: "metrics"})
+	case "notified-during-open":
+		// a second numbering is announced while the reopen of the first rebalance is about to finish (the library is held in
+		// AfterStreamStart): until the next rebalance has reopened the streams, member number, group size and range are those
+		// of the streams that are open
+		sp.Membership = "kubernetesHa"
+		sp.RebalanceDelayMs = 500
+		sp.FirstInfo = [2]int{1, 1}
+		round()
+		t1 := 2
+		if sp.NumVB >= 3 && rng.Intn(2) == 0 {
+			t1 = 3
+		}
+		sp.Steps = append(sp.Steps, Step{Op: "holdeh", Sel: "ASStart"}, Step{Op: "notify", Sel: "put", N: 1, VB: t1, Ms: 1}, Step{Op: "waitheld", Sel: "ASStart"},
+			Step{Op: "notify", Sel: "put", N: 1, VB: 1, Ms: 1}, Step{Op: "sleep", Ms: 40}, Step{Op: "releaseeh"}, Step{Op: "waitrebalance", N: 1}, Step{Op: "sleep", Ms: 30}, Step{Op: "metrics"},
+			Step{Op: "waitrebalance", N: 2}, Step{Op: "barrier"}, Step{Op: "metrics"})
 	case "open-end":
 		// a vBucket stream ends for good while the streams of the assignment are still being opened (the last stream request is
 		// unanswered): the active-stream gauge must read assigned - 1 afterwards
@@ -101,6 +120,11 @@ func c16Spec(rng *rand.Rand, i int) (*SessSpec, string) {
 			}
 		}
 		sp.Steps = append(sp.Steps, Step{Op: "metrics"})
+		if i%12 == 2 {
+			// ... then the node refuses the query of the next scrape, with progress in between: that scrape fails or says
+			// nothing about lag; afterwards scrapes are right again
+			sp.Steps = append(sp.Steps, Step{Op: "append", VB: 0, Items: genSnap(rng, o, &ctr)}, Step{Op: "barrier"}, Step{Op: "seqnofail"}, Step{Op: "metrics"}, Step{Op: "seqnofail", Sel: "off"}, Step{Op: "metrics"})
+		}
 	case "reopen":
 		round()
 		vb := rng.Intn(sp.NumVB)
@@ -148,6 +172,27 @@ func OracleMetrics(tr *Trace) ([]Finding, int) {
 	sp := tr.Spec
 	var prevCounters map[string]float64
 	for mi, m := range tr.Metrics {
+		// did the node answer a sequence-number query of this scrape with an error?
+		seqnoErr := false
+		for _, r := range tr.Log {
+			if r.T > m.TCall && r.T < m.TRet && r.K == "sim.tx" && r.Op == cbsim.OpGetAllVBSeqnos && r.St != 0 {
+				seqnoErr = true
+			}
+		}
+		if !m.OK && seqnoErr {
+			n++
+			continue // the scrape claims nothing: acceptable
+		}
+		if m.OK && seqnoErr {
+			n++
+			for k, v := range m.Vals {
+				if strings.HasPrefix(k, "cbgo_lag_current") || k == "cbgo_total_lag_current" {
+					fs = append(fs, Finding{"C16", "lag", "C16/lag-invented", fmt.Sprintf("scrape %d: the node answered the sequence-number query of this scrape with an error, yet the scrape reports %s=%v", mi, k, v)})
+					break
+				}
+			}
+			continue
+		}
 		if !m.OK {
 			closedWindow := false
 			for _, r := range tr.Log {
